@@ -307,7 +307,7 @@ GEN = re.compile(r"::<(?!impl )[^<>]*(?:<[^<>]*(?:<[^<>]*(?:<[^<>]*>[^<>]*)*>[^<
 
 def mirparse_strip(s):
     """remove lifetimes and turbofish generics from a callee path"""
-    s = s.replace("<'_>", '').replace("'_ ", '').replace("&'_ ", '&')
+    s = s.replace("::<'_>", '').replace("<'_>", '').replace("'_ ", '').replace("&'_ ", '&')
     s = re.sub(r"<'\w+>", '', s)
     prev = None
     while prev != s:
